@@ -47,7 +47,9 @@ type Report struct {
 	Trusted     []string
 	Exceptions  []string // named exceptions used (symbol: reason)
 	Floors      map[string]int
-	start       time.Time
+	// Only, when set, restricts what is recorded to the rules it accepts (used to reuse one rule of a larger rule set).
+	Only  func(rule string) bool
+	start time.Time
 }
 
 func NewReport(prop, tier string) *Report {
@@ -58,11 +60,17 @@ func NewReport(prop, tier string) *Report {
 // Rule registers a rule and the minimal number of obligations it must produce
 // (a rule that matches nothing would pass vacuously: that is reported as UNDECIDED).
 func (r *Report) Rule(id, doc string, floor int) {
+	if r.Only != nil && !r.Only(id) {
+		return
+	}
 	r.RuleDoc[id] = doc
 	r.Floors[id] = floor
 }
 
 func (r *Report) Add(o Obligation) {
+	if r.Only != nil && !r.Only(o.Rule) {
+		return
+	}
 	if !strings.HasPrefix(o.Key, o.Rule+" | ") {
 		o.Key = o.Rule + " | " + o.Key
 	}
